@@ -409,8 +409,11 @@ class Problem:
                         break
 
                 if all_same:
-                    # All variables from one VectorVariable - already in order!
-                    self._variables = list(source_vector._variables)
+                    # All variables from one VectorVariable; a view (reversed or strided
+                    # slice) need not be in natural order, so sort as in the general case
+                    self._variables = sorted(
+                        source_vector._variables, key=_natural_sort_key
+                    )
                     return self._variables
 
         # General case: collect from all expressions and sort
